@@ -456,6 +456,8 @@ GATES = [
     "srv.finish.cancelled", "srv.finish.removed", "srv.finish.halfclosed", "srv.close.emit", "srv.close.mid",
     "car.sent.c2s.new", "car.sent.c2s.msg", "car.sent.c2s.more", "car.sent.c2s.half", "car.sent.c2s.cancel", "car.sent.c2s.wu",
     "car.sent.s2c.hdr", "car.sent.s2c.msg", "car.sent.s2c.more", "car.sent.s2c.close", "car.sent.s2c.wu",
+    # before a goroutine takes the transport's send lock (the order in which concurrent emitters reach the wire)
+    "cli.tx.lock", "srv.tx.lock",
 ]
 
 
@@ -612,6 +614,25 @@ def fam_hostile_srv(seed, n=0, dirs=("fwd", "rev"), modes=("neg", "legacy", "off
                                 "cfg": {"dir": d, "rawCli": mode}, "steps": steps, "rpcs": rpcs,
                                 "policy": {"kind": "eager", "seed": seed, "max": 200},
                                 "meta": {"family": "hostile-srv", "deviation": dname}})
+        # a caller that announces a huge window for ITSELF (new_stream) and overruns the server's 64 KiB
+        for dname, mk in C2S_DEVIATIONS:
+            if not dname.startswith("overrun"):
+                continue
+            for pos in (2, 4):
+                conv = [new_frame(1, 1, win=1 << 20), new_frame(2, 2, shape="unary")] + data_frames(1, 1, "c", 0, 12) \
+                    + data_frames(2, 2, "c", 0, 9) + [raw("half", 2), raw("half", 1)]
+                frames = conv[:pos] + mk() + conv[pos:]
+                steps = copy.deepcopy(PREFIX)
+                for f in frames:
+                    steps += [copy.deepcopy(f), dl("c2s")]
+                for busy in (False, True):
+                    # busy: the handler is not reading when (and after) the overrun happens
+                    h1 = [op("ctxwait"), op("ret", code=0)] if busy else [op("recv"), op("recv"), op("send", n=3), op("ret", code=0)]
+                    out.append({"name": "hostile-srv-%s-bigwin-%s-p%d-%s" % (d, dname, pos, "busy" if busy else "reading"),
+                                "cfg": {"dir": d, "rawCli": "neg"}, "steps": copy.deepcopy(steps),
+                                "rpcs": [{"rpc": 1, "s": {"m": h1}}, {"rpc": 2, "s": {"m": [op("recv"), op("ret", code=0, n=4)]}}],
+                                "policy": {"kind": "eager", "seed": seed, "max": 100},
+                                "meta": {"family": "hostile-srv", "deviation": "bigwin-" + dname}})
         # a handler that is blocked sending (the raw caller grants no credit) when the caller cancels,
         # violates the protocol on that stream, or simply goes on: the tunnel and the bystander must not suffer
         for ending in ("cancel", "junk", "overrun", "half", "none"):
@@ -1005,7 +1026,21 @@ def fam_free(seed, n, dirs=("fwd", "rev")):
             if "a" in rs["c"]:
                 rs["c"]["a"] = [op("header")] + rs["c"]["a"] + [op("trailer")]
         pol = {"kind": "free", "seed": rng.randrange(1 << 30)}
-        kind = rng.choice(["none", "none", "close", "cancel", "carfail", "shutdown"])
+        kind = rng.choice(["none", "none", "close", "cancel", "carfail", "shutdown", "blocked-cancel", "blocked-cancel"])
+        if kind == "blocked-cancel" and fc == "fc":
+            # handlers blocked in SendMsg on an exhausted window (their callers never read), cancelled while blocked
+            nb = rng.randint(1, 3)
+            rpcs = rpcs[:max(1, nrpc - nb)]
+            for b in range(nb):
+                rn = 40 + b
+                rpcs.append({"rpc": rn, "c": {"m": [op("new", shape="bidi"), op("send", n=3)]},
+                             "s": {"m": [op("recv")] + [op("send", n=payload_for_wire(CH)) for _ in range(7)] + [op("ret", code=0)]}})
+            pol["faults"] = [{"at": rng.randint(60, 260), "step": {"do": "cancel", "rpc": 40 + b}} for b in range(nb)]
+            out.append({"name": "free-%s-%s-%s-%d" % (d, fc, kind, i), "cfg": cfg, "steps": [{"do": "open"}],
+                        "rpcs": rpcs, "policy": pol, "meta": {"family": "free", "done": []}})
+            continue
+        if kind == "blocked-cancel":
+            kind = "cancel"
         done = list(range(1, nrpc + 1))
         if kind != "none":
             step = {"do": kind} if kind != "cancel" else {"do": "cancel", "rpc": rng.randint(1, nrpc)}
